@@ -11,13 +11,15 @@ pub mod tests;
 // ================================================================================================
 
 /// The number of unique transition constraints in the input/output operations.
-pub const NUM_CONSTRAINTS: usize = 1;
+pub const NUM_CONSTRAINTS: usize = 2;
 
 /// The degrees of constraints in the individual constraints of the input/output ops.
 pub const CONSTRAINT_DEGREES: [usize; NUM_CONSTRAINTS] = [
     // Given it is a degree 7 operation, 7 is added to all the individual constraints
     // degree.
     8, // constraint for SDEPTH operation.
+    5, // constraint for the memory address of MSTREAM and PIPE operations (the sum of the two
+       // degree 5 operation flags does not depend on the lowest operation bit).
 ];
 
 // INPUT/OUTPUT OPERATIONS TRANSITION CONSTRAINTS
@@ -46,6 +48,13 @@ pub fn enforce_constraints<E: FieldElement>(
 
     index += enforce_sdepth_constraint(frame, result, op_flag.sdepth());
 
+    // enforce constraint of the MSTREAM and PIPE operations.
+    index += enforce_mem_stream_addr_constraint(
+        frame,
+        &mut result[index..],
+        op_flag.mstream() + op_flag.pipe(),
+    );
+
     index
 }
 
@@ -59,6 +68,19 @@ pub fn enforce_sdepth_constraint<E: FieldElement>(
 ) -> usize {
     // Enforces the depth of the stack is equal to the top element in the next frame.
     result[0] = op_flag * are_equal(frame.stack_item_next(0), frame.stack_depth());
+
+    1
+}
+
+/// Enforces the constraint on the memory address of the MSTREAM and PIPE operations: the address
+/// in the 13th stack element (position 12) is incremented by 2.
+pub fn enforce_mem_stream_addr_constraint<E: FieldElement>(
+    frame: &EvaluationFrame<E>,
+    result: &mut [E],
+    op_flag: E,
+) -> usize {
+    result[0] =
+        op_flag * are_equal(frame.stack_item_next(12), frame.stack_item(12) + E::from(2u32));
 
     1
 }
